@@ -118,6 +118,9 @@ class Mutator(object):
         m = self._want(msg, upd)
         if m is None:
             return self.osend(msg, *a, **kw)
+        if isinstance(m, tuple) and m[0] == "alert":
+            from tlslite.messages import Alert
+            return self.osend(Alert().create(m[2], m[1]))
         self.conn._handshake_hash.update(bytearray(m))
         return self.osend(Message(ContentType.handshake, bytearray(m)), True, False)
 
@@ -126,6 +129,12 @@ class Mutator(object):
         m = self._want(msg, True)
         if m is None:
             return self.oqueue(msg)
+        if isinstance(m, tuple) and m[0] == "alert":
+            # (goes out ahead of what is still queued of this flight; the in-memory socket never blocks here)
+            from tlslite.messages import Alert
+            for _ in self.osend(Alert().create(m[2], m[1])):
+                pass
+            return
         c = self.conn
         if c._buffer_content_type is None:
             c._buffer_content_type = ContentType.handshake
@@ -230,7 +239,7 @@ def _run_case(job):
     outpipe = p.c2s if role == "c" else p.s2c
     pick = None
     if mut is not None:
-        pick = (lambda raw: mut) if isinstance(mut, (bytes, bytearray)) else mut
+        pick = (lambda raw: mut) if isinstance(mut, (bytes, bytearray, tuple)) else mut
     mz = Mutator(peer, k, pick)
     cgen, sgen = sc.gens()
     egen, pgen = (cgen, sgen) if role == "c" else (sgen, cgen)
@@ -630,10 +639,10 @@ def run(tier):
     F = FL.flavour
     flavs = [F(3, "ecdhe_rsa"), F(4, "tls13"), F(3, "dhe_rsa", reqCert="cert"), F(1, "rsa"), F(3, "srp_sha"), F(4, "tls13", reqCert="cert"),
              F(4, "tls13_ecdsa", dc="ecdsa"), F(3, "dhe_dsa", reqCert="cert", ccred="c_dsa"),
-             F(4, "tls13", hrr=True), F(3, "ecdhe_ecdsa", ticket=True), F(0, "dhe_rsa"), F(4, "tls13", resume="psk", tickets13=1),
+             F(4, "tls13", hrr=True), F(0, "rsa", reqCert="cert"), F(3, "ecdhe_ecdsa", ticket=True), F(0, "dhe_rsa"), F(4, "tls13", resume="psk", tickets13=1),
              F(3, "rsa", resume="id"), F(2, "dh_anon"), F(3, "ecdhe_rsa", npn=True, reqCert="nocert")]
     if tier == "quick":
-        flavs = flavs[:9]
+        flavs = flavs[:10]
     with Pool(16) as pool:
         refs = pool.map(reference, [(i, f, r) for i, f in enumerate(flavs) for r in ("c", "s")])
     rnd = random.Random(repr((env.SEED, "c08")))
@@ -666,6 +675,14 @@ def run(tier):
                 jid += 1
                 jobs.append({"id": jid, "f": f, "role": role, "k": k, "mut": mb,
                              "tag": {"flavour": FL.fname(f), "role": role, "msg": tok, "k": k, "class": name, "arg": 0}, "measure": True})
+            if k > 1:
+                # an alert in place of the message: fatal ones, and the warnings a peer may send at this point of a
+                # handshake (no_certificate, user_canceled, close_notify)
+                for lvl, desc in ((2, 40), (2, 80), (1, 41), (1, 90), (1, 0), (3, 40)):
+                    jid += 1
+                    jobs.append({"id": jid, "f": f, "role": role, "k": k, "mut": ("alert", lvl, desc),
+                                 "tag": {"flavour": FL.fname(f), "role": role, "msg": tok, "k": k, "class": "alert-instead-%d-%d" % (lvl, desc),
+                                         "arg": 0}, "measure": False})
             if tok in ("CERT", "CCERT") and f["ver"] == 4:
                 for declared in (0xFFFFFF, 2000, 1, 0):
                     jid += 1
